@@ -90,6 +90,7 @@ class World:
         L.construct = L.construct_by_init
         self.dcls = ix.cls(dialect_key)
         self.dialect = d = Inst(self.dcls, dict(dialect_attrs, paramstyle=paramstyle), label="dialect")
+        d.model = True
         self.name = L.getattr(d, "name")
         self.prep_cls = self._cls_attr("preparer")
         self.ddl_cls = self._cls_attr("ddl_compiler")
@@ -1504,3 +1505,21 @@ R.mutant("benign-r5-inspector-options-local-renamed", "engine/reflection.py",
                sub('''                        **options,
 ''', '''                        **fk_options,
 ''')), None)
+R.mutant("benign-sqlite-private-helpers-renamed", _SQ,
+         chain(sub("_get_table_pragma", "_pragma_rows", count=6), sub("_get_table_sql", "_stored_statement", count=6)), None)
+R.mutant("benign-mysql-show-create-through-renamed-helper", _MYF,
+         chain(sub('''        sql = self._show_create_table(
+            connection, None, charset, full_name=full_name
+        )
+        if parser._check_view(sql):''', '''        sql = self._fetch_create_statement(connection, full_name, charset)
+        if parser._check_view(sql):'''),
+               sub('''    def _fetch_setting(
+        self, connection: Connection, setting_name: str
+    ) -> Optional[str]:''', '''    def _fetch_create_statement(self, connection, full_name, charset):
+        return self._show_create_table(
+            connection, None, charset, full_name=full_name
+        )
+
+    def _fetch_setting(
+        self, connection: Connection, setting_name: str
+    ) -> Optional[str]:''')), None)
